@@ -219,7 +219,34 @@ func executeOCSPCheck(ctx context.Context, cert, issuer *x509.Certificate, serve
 		return nil, GenericError{Err: errors.New("OCSP signature required")}
 	}
 
-	return ocsp.ParseResponseForCert(body, cert, issuer)
+	ocspResp, err := ocsp.ParseResponseForCert(body, cert, issuer)
+	if err != nil {
+		return nil, err
+	}
+	if err := validateResponder(ocspResp, issuer); err != nil {
+		return nil, err
+	}
+	return ocspResp, nil
+}
+
+// validateResponder checks that a response signed by a delegated responder,
+// i.e. by the certificate embedded in the response rather than by the issuer
+// itself, comes from a responder that the issuer authorized for OCSP signing.
+// ocsp.ParseResponseForCert only checks that the embedded certificate is
+// issued by the issuer, which holds for every certificate of that issuer.
+//
+// Reference: https://www.rfc-editor.org/rfc/rfc6960.html#section-4.2.2.2
+func validateResponder(resp *ocsp.Response, issuer *x509.Certificate) error {
+	responder := resp.Certificate
+	if responder == nil || responder.Equal(issuer) {
+		return nil
+	}
+	for _, eku := range responder.ExtKeyUsage {
+		if eku == x509.ExtKeyUsageOCSPSigning {
+			return nil
+		}
+	}
+	return GenericError{Err: errors.New("OCSP response is signed by a certificate that is not authorized for OCSP signing")}
 }
 
 func postRequest(ctx context.Context, req []byte, server string, httpClient *http.Client) (*http.Response, error) {
